@@ -823,7 +823,8 @@ kasumi_f8_1_buffer_bit(const kasumi_key_sched_t *pCtx, const uint64_t IV, const 
         c.b64[0] = b.b64[0] >> remainOffset;
         /* Only one block to encrypt */
         if (cipherLengthInBits < (64 - remainOffset)) {
-                const uint32_t byteLength = (cipherLengthInBits + 7) / 8;
+                /* bytes touched: the message starts remainOffset bits into the first byte */
+                const uint32_t byteLength = (remainOffset + cipherLengthInBits + 7) / 8;
 
                 memcpy_keystrm(safeInBuf.b8, pcBufferIn, byteLength);
                 /*
